@@ -117,7 +117,9 @@ impl Scenario for C10 {
             t.push_str("su file format v9\n[Metadata]\nTitle:t\n");
             let mut p = Plan::new("C10", "equiv", seed, idx);
             p.data = t.into_bytes();
-            p.set("dec", (idx % 9) as i64);
+            // always the full decoder: a decoder chosen by idx % 9 aliases with the base-6 enumeration (texts starting with
+            // NUL only ever met decoders 2, 5, 8 and a BOM-table change went unnoticed)
+            p.set("dec", 0);
             p.set("t", crate::transport::T_SLICE);
             p.note = "short-text".into();
             return p;
